@@ -225,6 +225,9 @@ type module interface {
 	validate() (int, string)
 	updateMsg(authority string) sdk.Msg
 	initGenesis(e *lib.Env) lib.Outcome
+	// genesisStages: result codes (0 nil, 1 error, 2 panic) of types.ValidateGenesis and of keeper.SetParams
+	// (on a discarded cache context) for the submitted set
+	genesisStages(e *lib.Env) (int, int)
 	newEnv() *lib.Env
 	// setup run on both environments before the update (under default parameters)
 	setup(e *lib.Env)
@@ -249,6 +252,10 @@ func run(h History, m module) lib.Case {
 	case 1:
 		upd = es.Deliver(m.updateMsg(strangerAddr()))
 	default:
+		// the two guards of InitGenesis observed separately (evidence only: which stage does the rejecting)
+		vg, sp := m.genesisStages(es)
+		lib.Stat(c.Stats, fmt.Sprintf("genesis:%s:validate=%d,ValidateGenesis=%d,SetParams=%d", h.Module, val, vg, sp))
+		c.Steps = append(c.Steps, fmt.Sprintf("genesis stages: ValidateGenesis=%d SetParams=%d", vg, sp))
 		upd = m.initGenesis(es)
 	}
 	after := m.stored(es)
